@@ -393,8 +393,9 @@ void h_dtor(void) { FOR_SHAPES(dtor_case(k_, S_)); }
  * a pending stale advance.  One environment step is the transitive closure of these moves (any number of operations of other threads).
  * ===================================================================================================== */
 #ifdef XV_INT
-_Bool e_on, e_arbitrary, e_taken, e_withdrawn, e_can_adv; uint64_t e_GH, e_GT, e_htag, e_ttag, e_P, e_idx, e_k, e_S; marked_value e_item; struct kbq* e_q;
-#define E_BOUND (((uint64_t)1) << 40)
+typedef unsigned char u8;
+_Bool e_on, e_arbitrary, e_taken, e_withdrawn, e_can_adv; u8 e_hs, e_ts, e_Ps, e_S; uint64_t e_htag, e_ttag, e_idx, e_k; marked_value e_item; struct kbq* e_q;
+#define E_BOUND (((uint64_t)1) << 40)        /* tags do not wrap during one call */
 static void env_own_cas(void* addr, uint64_t e, uint64_t d, _Bool ok) {
   if (!e_on || e_arbitrary || !ok) return;
   if (addr == (void*)&e_q->_head) { e_htag = MI_mark(d); if (!e_taken && !e_withdrawn) e_can_adv = 0; }   /* the head word changed: pending stale advances now fail */
@@ -408,48 +409,47 @@ void xv_env(void) {
     for (unsigned i = 0; i < NMAX; i++) q->_queue[i].value = nondet_u64();
     return;
   }
-  uint64_t k = e_k, size = e_k * e_S;
-  uint64_t nGH = nondet_u64(), nGT = nondet_u64(), nht = nondet_u64(), ntt = nondet_u64(); _Bool ntaken = nondet_bool(), ncan = nondet_bool();
-  XV_ASSUME(nGH >= e_GH && nGT >= e_GT && nGH <= nGT && nGT - nGH <= size - k && nGT < E_BOUND && nGH % k == 0 && nGT % k == 0);
-  XV_ASSUME(nht >= e_htag && ntt >= e_ttag && nht < E_BOUND && ntt < E_BOUND && (nGH == e_GH || nht > e_htag) && (nGT == e_GT || ntt > e_ttag));
+  /* head moves a segments forward, tail b segments; only a mod S, b mod S and how often head passes segment e_Ps matter, so a < 3S loses nothing */
+  u8 S = e_S, a = nondet_uchar(), b = nondet_uchar(), d = RING_OFF(e_hs, e_ts, S), off = RING_OFF(e_hs, e_Ps, S);
+  uint64_t nht = nondet_u64(), ntt = nondet_u64(); _Bool ntaken = nondet_bool(), ncan = nondet_bool();
+  XV_ASSUME(a < 3 * S && b < 4 * S && d + b >= a && d + b - a <= S - 1);       /* tail stays 0..S-1 segments ahead of head */
+  XV_ASSUME(nht >= e_htag && ntt >= e_ttag && nht < E_BOUND && ntt < E_BOUND && (a == 0 || nht > e_htag) && (b == 0 || ntt > e_ttag));
   _Bool present = !e_taken && !e_withdrawn;
   XV_ASSUME(!e_taken || ntaken);
-  uint64_t off = RING_OFF(e_GH % size, e_P, size), L0 = e_GH + off;            /* first logical position >= e_GH whose segment is e_P */
   if (present && !ntaken) {
-    XV_ASSUME(!(L0 < nGH) || (off == 0 && e_can_adv));                          /* head leaves e_P only by a stale pending advance */
-    XV_ASSUME(!(L0 + size < nGH));                                              /* ... and at most once */
-    _Bool hchanged = nGH != e_GH || nht != e_htag;
+    XV_ASSUME(!(a > off) || (off == 0 && e_can_adv));                           /* head leaves e_Ps only by a stale pending advance */
+    XV_ASSUME(!(a > off + S));                                                  /* ... and at most once */
+    _Bool hchanged = a != 0 || nht != e_htag;
     XV_ASSUME(ncan == (hchanged ? 0 : e_can_adv));
   }
-  e_GH = nGH; e_GT = nGT; e_htag = nht; e_ttag = ntt; e_can_adv = ncan;
-  q->_head = MI_make(nGH % size, nht); q->_tail = MI_make(nGT % size, ntt);
-  for (unsigned i = 0; i < NMAX; i++) if (i != e_idx) q->_queue[i].value = nondet_u64();
+  e_hs = (u8)((e_hs + a) % S); e_ts = (u8)((e_ts + b) % S); e_htag = nht; e_ttag = ntt; e_can_adv = ncan;
+  q->_head = MI_make((uint64_t)e_hs * e_k, nht); q->_tail = MI_make((uint64_t)e_ts * e_k, ntt);
+  /* committed() touches no other slot than e_idx: the others keep their arbitrary initial contents */
   if (present && ntaken) { marked_value nv = nondet_u64(); XV_ASSUME(nv != e_item); q->_queue[e_idx].value = nv; e_taken = 1; }
   else if (!present) { marked_value nv = nondet_u64(); XV_ASSUME(nv != e_item); q->_queue[e_idx].value = nv; }      /* marks only grow: the word does not come back */
 }
 static void committed_case(uint64_t k, uint64_t S) {
   struct kbq q; uint64_t size = k * S; q._k = k; q._queue_size = size; mon_reset(&q);
-  e_q = &q; e_k = k; e_S = S; e_arbitrary = 0; e_withdrawn = 0;
-  e_GH = nondet_u64(); e_GT = nondet_u64(); e_htag = nondet_u64(); e_ttag = nondet_u64(); e_taken = nondet_bool(); e_can_adv = nondet_bool();
-  XV_ASSUME(e_GH <= e_GT && e_GT - e_GH <= size - k && e_GT < E_BOUND && e_GH % k == 0 && e_GT % k == 0 && e_htag < E_BOUND && e_ttag < E_BOUND);
-  q._head = MI_make(e_GH % size, e_htag); q._tail = MI_make(e_GT % size, e_ttag);
-  uint64_t ps = nondet_u64(), po = nondet_u64(), totag = nondet_u64(), v = nondet_u64(), m = nondet_u64();
-  XV_ASSUME(ps < S && po < k && totag <= TAG_MASK && v != 0 && v <= PTR_MASK && m <= 0xffff);
-  e_P = ps * k; e_idx = e_P + po; e_item = MV_make(v, m);
+  e_q = &q; e_k = k; e_S = (u8)S; e_arbitrary = 0; e_withdrawn = 0;
+  e_hs = nondet_uchar(); e_ts = nondet_uchar(); e_Ps = nondet_uchar(); e_htag = nondet_u64(); e_ttag = nondet_u64(); e_taken = nondet_bool(); e_can_adv = nondet_bool();
+  XV_ASSUME(e_hs < S && e_ts < S && e_Ps < S && e_htag < E_BOUND && e_ttag < E_BOUND);
+  q._head = MI_make(e_hs * k, e_htag); q._tail = MI_make(e_ts * k, e_ttag);
+  uint64_t po = nondet_u64(), totag = nondet_u64(), v = nondet_u64(), m = nondet_u64();
+  XV_ASSUME(po < k && totag <= TAG_MASK && v != 0 && v <= PTR_MASK && m <= 0xffff);
+  uint64_t P = e_Ps * k; e_idx = P + po; e_item = MV_make(v, m);
   for (unsigned i = 0; i < NMAX; i++) q._queue[i].value = nondet_u64();
   if (e_taken) XV_ASSUME(q._queue[e_idx].value != e_item); else q._queue[e_idx].value = e_item;
-  marked_idx tail_old = MI_make(e_P, totag);
+  marked_idx tail_old = MI_make(P, totag);
   e_on = 1;
   _Bool r = kbq_committed(&q, tail_old, e_item, e_idx);
   e_on = 0;
-  uint64_t h = e_GH % size, t = e_GT % size;
   XV_OBL("kbq.committed.withdrawn", !(e_taken && e_withdrawn));
   if (r) {
     /* true only if a consumer took the value, or the item is in its slot, its segment is inside the circular region [head, tail], and no head
      * advance that missed the item can still succeed */
-    _Bool in_region = RING_OFF(h, e_P, size) <= RING_OFF(h, t, size);
-    XV_OBL("kbq.push.commit", e_taken || (!e_withdrawn && q._queue[e_idx].value == e_item && in_region && !(e_P == h && e_can_adv)));
-    if (e_taken) XV_CANARY("committed.taken"); else if (e_P == h) XV_CANARY("committed.at_head"); else XV_CANARY("committed.inside");
+    _Bool in_region = RING_OFF(e_hs, e_Ps, S) <= RING_OFF(e_hs, e_ts, S);
+    XV_OBL("kbq.push.commit", e_taken || (!e_withdrawn && q._queue[e_idx].value == e_item && in_region && !(e_Ps == e_hs && e_can_adv)));
+    if (e_taken) XV_CANARY("committed.taken"); else if (e_Ps == e_hs) XV_CANARY("committed.at_head"); else XV_CANARY("committed.inside");
   } else {
     /* false only after withdrawing the item itself: it was not delivered to anybody */
     XV_OBL("kbq.committed.withdrawn", e_withdrawn && !e_taken && q._queue[e_idx].value == MV_make(0, m + 1));
